@@ -48,7 +48,7 @@ def _decode_escape_sequence(  # noqa: PLR0911
         return "\t", index
     if ch == "x":
         # TODO: handle incomplete \x escape sequence
-        return chr(int(value[index + 1 : index + 3], 16)), index + 3
+        return chr(int(value[index + 1 : index + 3], 16)), index + 2
     if ch == "u":
         codepoint, index = _decode_hex_char(value, index, token)
         return chr(codepoint), index
@@ -82,8 +82,7 @@ def _decode_hex_char(value: str, index: int, token: Token) -> tuple[int, int]:
         )
 
     codepoint = _parse_hex_digits(value[index : index + hex_digit_length], token)
-    index += hex_digit_length
-    index += 1  # move past '}'
+    index += hex_digit_length  # the closing brace; the caller moves past it
     return codepoint, index
 
 
